@@ -309,6 +309,10 @@ pub struct StreamInner {
     in_eof: bool,
     out: Vec<u8>,
     wfail: bool,
+    /// write credit in octets; None = unlimited.  With no credit left
+    /// poll_write is pending, with some it is short.
+    wcredit: Option<usize>,
+    wwaker: Option<Waker>,
     shutdown: bool,
     dropped: bool,
     rwaker: Option<Waker>,
@@ -350,13 +354,21 @@ impl AsyncRead for MockStream {
 }
 
 impl AsyncWrite for MockStream {
-    fn poll_write(self: Pin<&mut Self>, _cx: &mut Context<'_>, buf: &[u8]) -> Poll<io::Result<usize>> {
+    fn poll_write(self: Pin<&mut Self>, cx: &mut Context<'_>, buf: &[u8]) -> Poll<io::Result<usize>> {
         self.act.hit();
         let mut g = self.inner.lock().unwrap();
         if g.wfail {
             return Poll::Ready(Err(io::Error::new(io::ErrorKind::BrokenPipe, "peer stopped reading")));
         }
-        let n = buf.len().min(self.wchunk);
+        let mut n = buf.len().min(self.wchunk);
+        if let Some(c) = g.wcredit {
+            if c == 0 {
+                g.wwaker = Some(cx.waker().clone());
+                return Poll::Pending;
+            }
+            n = n.min(c);
+            g.wcredit = Some(c - n);
+        }
         g.out.extend_from_slice(&buf[..n]);
         Poll::Ready(Ok(n))
     }
@@ -403,7 +415,25 @@ impl StreamPeer {
         }
     }
     pub fn stop_reading(&self) {
-        self.inner.lock().unwrap().wfail = true;
+        let w = {
+            let mut g = self.inner.lock().unwrap();
+            g.wfail = true;
+            g.wwaker.take()
+        };
+        if let Some(w) = w {
+            w.wake();
+        }
+    }
+    /// The peer takes `n` more octets and then nothing (None: everything).
+    pub fn write_credit(&self, n: Option<usize>) {
+        let w = {
+            let mut g = self.inner.lock().unwrap();
+            g.wcredit = n;
+            g.wwaker.take()
+        };
+        if let Some(w) = w {
+            w.wake();
+        }
     }
     pub fn client_closed(&self) -> bool {
         let g = self.inner.lock().unwrap();
@@ -541,10 +571,12 @@ impl StreamSession {
                 done[*r as usize - 1].push(o.clone());
             }
         }
-        let mut p = json!({"out": out, "done": done, "closed": self.peer.client_closed()});
-        if partial != 0 {
-            p["partial_octets"] = json!(partial);
-        }
+        // partial: octets of a request that is not complete yet are on the
+        // wire (a stalled write); whatever is complete must parse as whole,
+        // unspliced requests (`out`)
+        let closed = self.peer.client_closed();
+        let mut p = json!({"out": out, "done": done, "closed": closed,
+                           "partial": partial != 0 && !closed});
         if self.hang {
             p["hang"] = json!(true);
         }
